@@ -849,19 +849,19 @@ def c19_cost_oracle(line, res):
     for (k, c), x in zip(ops, rs):
         if k == "H" and x[0] == "A" and c not in ctl:
             ctl[c] = x
+    if f["mode"] == "budget":
+        nh = sum(1 for kk, _ in ops if kk == "H")
+        if sum(1 for (kk, _), xx in zip(ops, rs) if kk == "H" and xx[0] == "A") != nh:
+            return None          # the calibration itself failed: left to the comparison with the model
+        badw = [(i, c, x) for i, ((k, c), x) in enumerate(zip(ops, rs)) if k == "W" and x[0] != "A"]
+        if badw:
+            i, c, x = badw[0]
+            return ("client %s, budget of %s tokens: %d hits outside the refresh window were answered from the cache with half "
+                    "of it; of the same %d hits INSIDE the window (upstream answers every refresh with %s) %d were not answered "
+                    "from the cache (first: #%d, got %s): failing background refreshes used up the client's budget" % (
+                        cls[c], f["burst"], nh, nh, f["rf"], len(badw), i - nh + 1, x[0]))
     for i, ((k, c), x) in enumerate(zip(ops, rs)):
         if k != "W":
-            continue
-        if f["mode"] == "budget":
-            nh = sum(1 for kk, _ in ops if kk == "H")
-            if sum(1 for (kk, _), xx in zip(ops, rs) if kk == "H" and xx[0] == "A") != nh:
-                return None          # the calibration itself failed: left to the comparison with the model
-            if x[0] != "A":
-                bad = sum(1 for (kk, _), xx in zip(ops, rs) if kk == "W" and xx[0] != "A")
-                return ("client %s, budget of %s tokens: %d hits outside the refresh window were answered from the cache with half "
-                        "of it; of the same %d hits INSIDE the window (upstream answers every refresh with %s) %d were not answered "
-                        "from the cache (first: #%d, got %s): failing background refreshes used up the client's budget" % (
-                            cls[c], f["burst"], nh, nh, f["rf"], bad, i - nh + 1, x[0]))
             continue
         if x[0] != "A":
             return "hit #%d of %s inside the refresh window was not answered from the cache (%s)" % (i, cls[c], x[0])
